@@ -26,7 +26,7 @@ func init() {
 		t := time.Now()
 		exploreNoSleep = os.Getenv("NOSLEEP") != ""
 		exploreNoCache = os.Getenv("NOCACHE") != ""
-		res := exploreHarness(h, bound, time.Now().Add(time.Hour), max)
+		res := exploreHarness(h, exploreCfg{bound: bound, deadline: time.Now().Add(time.Hour), maxExecs: max})
 		if kf := os.Getenv("KEYFILE"); kf != "" {
 			f, _ := os.Create(kf)
 			for _, k := range res.TraceKeys {
@@ -50,7 +50,7 @@ func init() {
 		h := harnessByName(args[0])
 		bound, _ := strconv.Atoi(args[1])
 		max, _ := strconv.ParseInt(args[2], 10, 64)
-		res := exploreHarness(h, bound, time.Now().Add(time.Hour), max)
+		res := exploreHarness(h, exploreCfg{bound: bound, deadline: time.Now().Add(time.Hour), maxExecs: max})
 		for _, f := range res.Failures {
 			if len(args) > 3 && !containsStr(f.Sig, args[3]) {
 				continue
